@@ -84,7 +84,7 @@ class ChunkFault(Exception):
     pass
 
 
-def one_load(data, flag, mode, fail_at=None, chunk_fail=None):
+def one_load(data, flag, mode, fail_at=None, chunk_fail=None, flag_how="assign"):
     """Runs one load under a fault plan; returns (outcome, violations-detail-list, counters)."""
     import rv.errors as E
     import rv.lib.iff as iff
@@ -92,6 +92,12 @@ def one_load(data, flag, mode, fail_at=None, chunk_fail=None):
 
     problems = []
     E.RAISE_CONTROLLER_VALUE_ERRORS = flag
+    outer = None
+    if flag_how == "context":
+        # the caller established the setting with the library's own context manager and loads INSIDE the block
+        E.RAISE_CONTROLLER_VALUE_ERRORS = not flag
+        outer = E.override_raise_controller_value_errors(flag)
+        outer.__enter__()
     real_chunk = iff.Chunk
     nchunks = [0]
     if chunk_fail is not None or mode == "count-chunks":
@@ -161,7 +167,15 @@ def one_load(data, flag, mode, fail_at=None, chunk_fail=None):
         iff.Chunk = real_chunk
     after = E.RAISE_CONTROLLER_VALUE_ERRORS
     if after is not flag:
-        problems.append(("strictness-flag-not-restored", {"before": flag, "after": after, "outcome": outcome}))
+        problems.append(("strictness-flag-not-restored", {"before": flag, "after": after, "outcome": outcome, "flag_how": flag_how}))
+    if outer is not None:
+        outer.__exit__(None, None, None)
+        if E.RAISE_CONTROLLER_VALUE_ERRORS is not (not flag):
+            problems.append(("callers-own-override-not-unwound", {"outcome": outcome}))
+        E.RAISE_CONTROLLER_VALUE_ERRORS = flag
+    if outcome == "raised:ControllerValueError":
+        # a controller-value error can only be RAISED in strict mode: part of this load ran strict
+        problems.append(("load-ran-in-strict-mode", {"outcome": outcome}))
     # consequence: strict API use right after the load
     E_after = after
     try:
@@ -249,15 +263,15 @@ def apply_plan(data, plan):
     return data, None, None
 
 
-def run_plan(rel, data, plan, flag, mode):
+def run_plan(rel, data, plan, flag, mode, flag_how="assign"):
     d2, fail_at, chunk_fail = apply_plan(data, plan)
-    outcome, problems, _calls, _n = one_load(d2, flag, mode, fail_at, chunk_fail)
+    outcome, problems, _calls, _n = one_load(d2, flag, mode, fail_at, chunk_fail, flag_how)
     vs = []
     for name, detail in problems:
         vs.append(C.viol(name, {"plan": plan[0], "mode": mode, "flag": flag, "outcome": outcome.split(":")[0]},
                          dict(detail, file=rel, plan=list(plan)),
                          {"fixture": rel, "plan": [plan[0], list(plan[1]) if isinstance(plan[1], tuple) else plan[1]],
-                          "flag": flag, "mode": mode}))
+                          "flag": flag, "mode": mode, "flag_how": flag_how}))
     return outcome, vs
 
 
@@ -265,7 +279,7 @@ def run_case(case):
     data = open(os.path.join(treeenv.FIXTURES, case["fixture"]), "rb").read()
     kind, arg = case["plan"]
     plan = (kind, tuple(arg) if isinstance(arg, list) else arg)
-    return run_plan(case["fixture"], data, plan, case["flag"], case["mode"])[1]
+    return run_plan(case["fixture"], data, plan, case["flag"], case["mode"], case.get("flag_how", "assign"))[1]
 
 
 def _task(t):
@@ -278,6 +292,12 @@ def _task(t):
         for flag in (True, False):
             for mode in ("fileobj", "path") + (("realpath",) if plan[0] in ("none", "trunc", "styp", "cval", "nested-trunc") else ()):
                 outcome, vs = run_plan(rel, data, plan, flag, mode)
+                if mode == "fileobj" and (plan[0] in ("none", "styp", "cval", "chunk", "nested-trunc") or
+                                          (isinstance(plan[1], int) and plan[1] % 8 == 0)):
+                    o2, vs2 = run_plan(rel, data, plan, flag, mode, "context")
+                    vs = vs + vs2
+                    r["evals"] += 1
+                    C.count(r, "inside-callers-override-block")
                 r["evals"] += 1
                 C.count(r, outcome.split(":")[0])
                 C.count(r, "plan-" + plan[0])
@@ -324,6 +344,7 @@ def run(ctx):
         "exhaustive": True,
         "plans": nplans, "returned": agg.counters.get("returned", 0), "raised": agg.counters.get("raised", 0),
         "by_plan_kind": {k[5:]: v for k, v in agg.counters.items() if k.startswith("plan-")},
+        "loads_inside_a_callers_override_block": agg.counters.get("inside-callers-override-block", 0),
         "path_loads_whose_handle_could_not_be_tracked": agg.counters.get("path-loads-not-tracked", 0),
         "samples": agg.samples,
     }
